@@ -561,6 +561,9 @@ pub fn driver_streams(rng: &mut Rng, n: usize, maxlen: usize, mutants_per: usize
     for (label, s) in gen::reshift_edge_streams(rng, maxlen > 40000) {
         v.push(Driven { label, bytes: s });
     }
+    for (label, s) in gen::deep_chain_streams() {
+        v.push(Driven { label, bytes: s });
+    }
     v
 }
 
